@@ -183,6 +183,8 @@ class Gen:
         self.mark = 100
         self.var = 0
         self.allow_defects = allow_defects
+        self.void = set()        # indices of functions without a result (may fall off their end)
+        self.no_lit = False      # no function literal, no top-level declaration: the body's scope can be elided
 
     def m(self):
         self.mark += 1
@@ -191,6 +193,36 @@ class Gen:
     def v(self, p="v"):
         self.var += 1
         return "%s%d" % (p, self.var)
+
+    def call_stmt(self, fj):
+        if fj in self.void or (self.no_lit and self.rng.random() < 0.5):
+            return ("call", fj)
+        return (self.rng.choice(["call", "callv"]), fj)
+
+    def elidable(self, fi, nfun):
+        """body of a function without result whose own scope the compiler can elide (block.go scopeElisionScan):
+        no declaration at the top level of the body, no function literal anywhere; deferred calls of named
+        functions sit inside nested blocks; the function may reach its closing brace without a return statement"""
+        rng = self.rng
+        self.no_lit = True
+        out = []
+        for _ in range(rng.randint(2, 5)):
+            r = rng.random()
+            if r < 0.3:
+                out.append(("print", self.m()))
+            elif r < 0.7:
+                inner = []
+                if fi + 1 < nfun and rng.random() < 0.8:
+                    inner.append(("defer_call", rng.randint(fi + 1, nfun - 1)))
+                inner += self.block(2, fi, nfun, False, False, True, False, [4], 0, 0)
+                out.append(("ifc", rng.random() < 0.8, inner))
+            elif r < 0.85 and fi + 1 < nfun:
+                out.append(("call", rng.randint(fi + 1, nfun - 1)))
+            else:
+                body = self.block(2, fi, nfun, False, True, True, False, [4], 1, 1)
+                out.append(("try", body, [("print", self.m())]))
+        self.no_lit = False
+        return out
 
     def defer_lit(self, fi, nfun, rec=None, fail=None):
         """deferred closure: optional recover(), a marker, optionally a call, optionally a runtime error"""
@@ -232,7 +264,7 @@ class Gen:
         elif t < 0.65:
             out.append(("panic", self.m()))
         elif t < 0.85 and fi + 1 < nfun:
-            out.append((rng.choice(["call", "callv"]), rng.randint(fi + 1, nfun - 1)))
+            out.append(self.call_stmt(rng.randint(fi + 1, nfun - 1)))
             out.append(("print", self.m()))
         else:
             out.append(("try", [("err",)], [("print", self.m())]))
@@ -263,7 +295,7 @@ class Gen:
                 catch = None if rng.random() < 0.2 else self.block(depth + 1, fi, nfun, in_loop, True, infun, ret, budget, ntry + 1, nmark)
                 out.append(("try", body, catch))
             elif r < 0.53:
-                out.append(("if", rng.random() < 0.7, self.block(depth + 1, fi, nfun, in_loop, in_try, infun, ret, budget, ntry, nmark)))
+                out.append(("ifc" if (self.no_lit or rng.random() < 0.3) else "if", rng.random() < 0.7, self.block(depth + 1, fi, nfun, in_loop, in_try, infun, ret, budget, ntry, nmark)))
             elif r < 0.63 and (ntry == 0 or self.allow_defects):
                 k = rng.randint(1, 3)
                 body = self.block(depth + 1, fi, nfun, True, False, infun, ret, budget, ntry, nmark + 1)
@@ -278,17 +310,19 @@ class Gen:
                     tgt.insert(rng.randint(0, len(tgt)), (rng.choice(["break_at", "continue_at"]), rng.randint(0, k - 1)))
                 out.append(("loop", k, body))
             elif r < 0.75 and fi + 1 < nfun:
-                out.append((rng.choice(["call", "callv"]), rng.randint(fi + 1, nfun - 1)))
+                out.append(self.call_stmt(rng.randint(fi + 1, nfun - 1)))
             elif r < 0.85 and infun:
-                if rng.random() < 0.4 and fi + 1 < nfun:
+                if (self.no_lit or rng.random() < 0.4) and fi + 1 < nfun:
                     out.append(("defer_call", rng.randint(fi + 1, nfun - 1)))
-                else:
+                elif not self.no_lit:
                     out.append(self.defer_lit(fi, nfun))
+                else:
+                    out.append(("print", self.m()))
             elif r < 0.91 and infun:
                 out.append(("panic", self.m()))
                 break
             elif r < 0.97 and infun and (nmark <= 1 or self.allow_defects):
-                if in_try and rng.random() < 0.3:
+                if in_try and ret and rng.random() < 0.3:
                     out.append(("reterr",))       # return 1 / 0 : defers run, then the error is raised
                 else:
                     out.append(("retv", self.m()) if ret else ("return",))
@@ -303,18 +337,38 @@ class Gen:
 def gen_program(rng, allow_defects=True):
     g = Gen(rng, allow_defects)
     nfun = rng.randint(1, 4)
+    g.void = set(fi for fi in range(nfun) if rng.random() < 0.3)
     funs = []
     for fi in range(nfun):
-        ret = True     # every function returns int (so that `v := f()` and `f()` are both legal)
-        if rng.random() < 0.3:
+        ret = fi not in g.void     # functions with a result return int (`v := f()` and `f()` are both legal)
+        if not ret and rng.random() < 0.6:
+            body = g.elidable(fi, nfun)
+        elif rng.random() < 0.3:
             body = g.defer_heavy(fi, nfun)
         else:
             body = g.block(0, fi, nfun, False, False, True, ret, [14])
-        funs.append({"name": "f%d" % fi, "ret": ret, "body": body, "final": g.m()})
+        if not ret:
+            body = _strip_value_returns(body)
+        funs.append({"name": "f%d" % fi, "ret": ret, "body": body, "final": g.m() if ret else None})
     main = g.block(0, -1, nfun, False, False, False, False, [10])
     if not any(s[0] in ("call", "callv") for s in main):
         main.append(("call", 0))
     return {"funs": funs, "main": main}
+
+
+def _strip_value_returns(stmts):
+    """a function without result: `return v` / failing return expression become a plain return"""
+    out = []
+    for s in stmts:
+        if s[0] in ("retv", "reterr"):
+            out.append(("return",))
+        elif s[0] == "try":
+            out.append(("try", _strip_value_returns(s[1]), None if s[2] is None else _strip_value_returns(s[2])))
+        elif s[0] in ("if", "ifc", "loop"):
+            out.append((s[0], s[1], _strip_value_returns(s[2])))
+        else:
+            out.append(s)
+    return out
 
 
 def render(prog):
@@ -350,6 +404,10 @@ def render(prog):
                 c = fresh("c")
                 lines.append("%s%s := %d" % (pad, c, 1 if s[1] else 0))
                 lines.append("%sif %s == 1 {" % (pad, c))
+                blk(s[2], ind + 1, loopvar)
+                lines.append(pad + "}")
+            elif k == "ifc":
+                lines.append("%sif 1 == %d {" % (pad, 1 if s[1] else 2))
                 blk(s[2], ind + 1, loopvar)
                 lines.append(pad + "}")
             elif k == "loop":
@@ -389,9 +447,13 @@ def render(prog):
                 lines.append("%sreturn 1 / %s" % (pad, z))
 
     for f in prog["funs"]:
-        lines.append("func %s() int {" % f["name"])
-        blk(f["body"], 1, None)
-        lines.append("    return %d" % f["final"])
+        if f.get("final") is None:
+            lines.append("func %s() {" % f["name"])        # no result: may fall off its end
+            blk(f["body"], 1, None)
+        else:
+            lines.append("func %s() int {" % f["name"])
+            blk(f["body"], 1, None)
+            lines.append("    return %d" % f["final"])
         lines.append("}")
         lines.append("")
     lines.append("func main() {")
@@ -461,7 +523,7 @@ def has_failing_defer(prog):
             if s[0] in ("try",):
                 if walk(s[1]) or (s[2] is not None and walk(s[2])):
                     return True
-            if s[0] in ("if", "loop") and walk(s[2]):
+            if s[0] in ("if", "ifc", "loop") and walk(s[2]):
                 return True
         return False
     return any(walk(f["body"]) for f in prog["funs"])
@@ -551,7 +613,7 @@ def ref_trace(prog, limit=20000, vm_variant=False):
                 except _Err:
                     if s[2] is not None:
                         block(s[2], loopvar, regs, ctx)
-            elif k == "if":
+            elif k in ("if", "ifc"):
                 if s[1]:
                     block(s[2], loopvar, regs, ctx)
             elif k == "loop":
